@@ -191,7 +191,12 @@ pub trait ByteReader {
         Self: Sized,
         D: Deserializable,
     {
-        let mut result = Vec::with_capacity(num_elements);
+        // `num_elements` usually comes from the input itself: do not let it drive the allocation
+        // (a few bytes could otherwise request an arbitrary amount of memory or overflow the
+        // capacity computation); reserve a bounded amount and grow as elements are decoded
+        const MAX_PREALLOCATED_BYTES: usize = 4096;
+        let max_prealloc = MAX_PREALLOCATED_BYTES / core::cmp::max(core::mem::size_of::<D>(), 1);
+        let mut result = Vec::with_capacity(core::cmp::min(num_elements, max_prealloc));
         for _ in 0..num_elements {
             let element = D::read_from(self)?;
             result.push(element)
